@@ -557,6 +557,19 @@ def shards(tier, seed):
         exact.append(cse)
     out.append({"sub": "list", "cases": exact[:2]})
     out.append({"sub": "list", "cases": exact[2:]})
+    # very regular meters: the unsplit model already fits within a percent or two, yet a small systematic weekday/weekend (or seasonal)
+    # difference makes a split the better candidate - a low absolute error is no reason to skip the comparison
+    regular = []
+    for j, (prof, ws, ss) in enumerate([("current", -0.03, 0.0), ("legacy_dev", 0.04, 0.0), ("current", 0.0, 0.04)]):
+        cse = {"kind": "select", "profile": prof, "seed": 4000 + j + seed % 1000, "tz": "America/Chicago", "n": 365, "start_day": 0,
+               "weekend_shift": ws, "season_shift": ss, "noise": 0.003, "additive": 0.0, "usage": {"base": 24.0, "hs": 0.6, "hb": 52.0, "cs": 0.4, "cb": 68.0},
+               "south": False, "prefit": None}
+        if prof == "legacy_dev":
+            cse["criteria"] = "bic"
+            cse["flags"] = [True, True, True, True]
+        regular.append(cse)
+    out.append({"sub": "list", "cases": regular[:2]})
+    out.append({"sub": "list", "cases": regular[2:]})
     # short seasons: a one-month winter (only January) / a one-month summer (only July) under a custom season map, with weekends that
     # behave differently in that month - the chosen split then has a component of about ten days
     short = []
